@@ -161,17 +161,19 @@ def _model(case: dict[str, Any]):
 
     depth = [0]
 
-    def render(items: list, blk, loop_i, bound: bool = False, via_super: bool = False) -> str:
+    def render(items: list, blk, loop_i, bound: bool = False, via_super: bool = False, ls: str = "none") -> str:
         depth[0] += 1
         if depth[0] > 60:
             raise _Recursive()
         try:
-            return _render(items, blk, loop_i, bound, via_super)
+            return _render(items, blk, loop_i, bound, via_super, ls)
         finally:
             depth[0] -= 1
 
-    def _render(items: list, blk, loop_i, bound: bool, via_super: bool) -> str:
-        """bound: a for of this very definition encloses the items; via_super: we are somewhere below a block.super call."""
+    def _render(items: list, blk, loop_i, bound: bool, via_super: bool, ls: str) -> str:
+        """bound: a for of this very definition encloses the items; via_super: we are somewhere below a block.super call; ls: what lies
+        between the innermost running loop and these items - "own" (nothing: same definition), "placed" (the first boundary crossed
+        was a block tag: the loop encloses the place where the block stands), "supered" (the first boundary was a block.super call)."""
         out = []
         for it in items:
             k = it[0]
@@ -185,9 +187,10 @@ def _model(case: dict[str, Any]):
                 out.append(WIDGET_OUT[it[1]])
             elif k == "loopvar":
                 # the innermost loop running when this item renders - also across block boundaries: a definition replaces the block where
-                # it stands, inside whatever loop the root (or an enclosing definition) placed it in.  What a definition reached through
-                # block.super sees of the loops around the super call is not settled by the property.
-                if not bound and via_super:
+                # it stands, inside whatever loop the root (or an enclosing definition) placed it in.  What a definition reached through a
+                # block.super call sees of a loop that the *calling definition itself* opened around the call is not settled by the property;
+                # a loop around the place where the block stands is seen by every definition of that block, however it is reached.
+                if ls == "supered":
                     unspecified.append("free-loop-variable-below-super")
                 out.append("" if loop_i is None else str(loop_i))
             elif k == "super":
@@ -199,7 +202,7 @@ def _model(case: dict[str, Any]):
                     feats["super_rendered"] = feats.get("super_rendered", 0) + 1
                     if idx + 1 >= 2:
                         feats["super_depth2"] = feats.get("super_depth2", 0) + 1
-                    out.append(render(nxt[3], (name, idx + 1), loop_i, False, True))
+                    out.append(render(nxt[3], (name, idx + 1), loop_i, False, True, "supered" if ls == "own" else ls))
             elif k == "block":
                 name = it[1]
                 d0 = defs[name][0]
@@ -211,13 +214,13 @@ def _model(case: dict[str, Any]):
                     feats["overridden"] = feats.get("overridden", 0) + 1
                 if loop_i is not None:
                     feats["block_inside_running_loop"] = feats.get("block_inside_running_loop", 0) + 1
-                out.append(render(d0[3], (name, 0), loop_i, False, via_super))
+                out.append(render(d0[3], (name, 0), loop_i, False, via_super, "placed" if ls == "own" else ls))
             elif k == "for":
                 for i in range(1, it[1] + 1):
-                    out.append(render(it[2], blk, i, True, via_super))
+                    out.append(render(it[2], blk, i, True, via_super, "own"))
             elif k == "if":
                 if truthy(it[1], data):
-                    out.append(render(it[2], blk, loop_i, bound, via_super))
+                    out.append(render(it[2], blk, loop_i, bound, via_super, ls))
         return "".join(out)
 
     root = tpls[chain[-1]]
@@ -515,6 +518,20 @@ def layouts(names=("a", "b")) -> list[list]:
         outs.append([blk(b, vb), ["text", ""], blk(a, va)])
         outs.append([["text", ""], blk(a, va, blk(b, vb)), ["text", ""]])
         outs.append([["text", ""], blk(b, vb, blk(a, va)), ["text", ""]])
+    # a block that stands inside a running loop and is rendered once per iteration: every definition of it, reached directly or through
+    # block.super, renders afresh each time and sees that iteration's loop variable
+    def lblk(name, var):
+        body = [["text", ""], ["loopvar"]]
+        if var == "super":
+            body.append(["super"])
+        elif var == "super2":
+            body = [["super"], ["loopvar"], ["super"]]
+        return ["block", name, False, body, None]
+
+    for var in ("plain", "super", "super2"):
+        outs.append([["for", 3, [lblk(a, var)]]])
+        outs.append([["text", ""], blk(b, "plain", ["for", 2, [lblk(a, var), ["text", ""]]])])
+        outs.append([["for", 2, [["loopvar"], blk(b, "super", lblk(a, var))]]])
     # blocks whose default body is empty or whitespace-only, alone inside control flow or inside another block
     for e in ("empty",):  # (a whitespace-only body meets the documented suppression of blank blocks: not generated)
         outs.append([["if", "true", [blk(a, e)]], ["text", ""]])
